@@ -298,6 +298,10 @@ func checkC13(c *Ctx, n int) {
 			if code[0] == 'M' {
 				// the INI reader unquotes a quoted map value; the flag form has no such rule
 				v = strings.Replace(v, ":\"", ":q\"", 1)
+				// … but a quote further on in the value part - behind a later colon - is text in both
+				if strings.HasSuffix(code, ",str") && c.Rng.Intn(3) == 0 && strings.Contains(v, ":") {
+					v += []string{":\"hi\"", ":\"", "x:\"a b\" c"}[c.Rng.Intn(3)]
+				}
 			}
 			vals = append(vals, v)
 		}
@@ -838,12 +842,39 @@ func checkC15(c *Ctx, n int, reps int) {
 				c.Class("c15/names-differing-in-case-only")
 			}
 		}
+		// fields that carry TWO of the structural tags (command / group / positional-args): which one
+		// decides is fixed (positional-args, then command, then group), not incidental
+		if g.chance(0.4) && cs.Build[0].Struct != nil {
+			base := append([]FieldDesc{}, cs.Build[0].Struct.Fields...)
+			two := []FieldDesc{
+				{Name: "TwoA", Exported: true, Kind: "s", Tag: `command:"twocmd" group:"Two Options"`, Sub: &StructDesc{Fields: []FieldDesc{
+					{Name: "TwoAOpt", Exported: true, Kind: "v", Ty: "bool", Tag: `long:"two-a-opt" description:"in a command or a group"`}}}},
+				{Name: "TwoB", Exported: true, Kind: "s", Tag: `group:"Files" positional-args:"yes"`, Sub: &StructDesc{Fields: []FieldDesc{
+					{Name: "TwoBArg", Exported: true, Kind: "v", Ty: "Lstr", Tag: `long:"two-b-opt" description:"an argument or an option"`}}}},
+			}
+			hasPos := false
+			for _, f := range base {
+				if strings.Contains(f.Tag, "positional-args") {
+					hasPos = true
+				}
+			}
+			if hasPos {
+				two = two[:1]
+			}
+			cs.Build[0].Struct.Fields = append(base, two...)
+			if probe, _ := BuildReal(cs); probe.dead {
+				cs.Build[0].Struct.Fields = base
+			} else {
+				c.Class("c15/fields-with-two-structural-tags")
+			}
+		}
 		g.addProgrammatic(cs)
 		real, _ := BuildReal(cs)
 		if real.dead {
 			continue
 		}
 		ops := []Op{}
+		ops = append(ops, Op{Kind: "model"})
 		if caseTwins {
 			ops = append(ops, Op{Kind: "complete", Args: []string{"-"}}, Op{Kind: "complete", Args: []string{"--"}}, Op{Kind: "complete", Args: []string{"--z"}})
 		}
